@@ -411,11 +411,11 @@ Lemma pass1_move_W s o : Mid s -> In (AMove o) (queue s) -> Mid (pass1_one true 
 Proof.
   intros M Hin.
   assert (Ho : In o (heap s)) by (apply (q_obj (w_q M) (AMove o)); auto; cbn; discriminate).
-  assert (No : ~ In o (cset s)) by (apply (obst_not_cset M Hin); cbn; discriminate).
+  assert (No : ~ In o (cset s)) by (apply (@obst_not_cset _ _ _ _ M Hin); cbn; discriminate).
   rewrite pass1_move_eq by auto. constructor; sproj; try apply M.
   - apply mac_QOK; auto. apply M.
     intros c w o' H. destruct (w_att M _ _ _ H) as (?&?&?&?); auto.
-  - intros c w o' H. apply filter_In in H. destruct H as [H _]. apply (w_att M); auto.
+  - intros c w o' H. apply filter_In in H. destruct H as [H _]. apply (w_att M c w o'); auto.
   - intros x Hx. apply remove_nat_In in Hx. apply (w_act M); tauto.
   - apply remove_nat_NoDup, M.
   - intros x Hx. destruct (Nat.eq_dec x o) as [->|Nx].
@@ -432,7 +432,7 @@ Lemma pass1_remove_W s o :
   Mid s -> In (ARemove o) (queue s) -> In o (heap s) -> Mid (pass1_one true s (ARemove o)).
 Proof.
   intros M Hin Ho.
-  assert (No : ~ In o (cset s)) by (apply (obst_not_cset M Hin); cbn; discriminate).
+  assert (No : ~ In o (cset s)) by (apply (@obst_not_cset _ _ _ _ M Hin); cbn; discriminate).
   rewrite pass1_remove_eq by auto. constructor; sproj.
   - apply QOK_scrub; [apply M|]. intros a Ha K E.
     assert (a = ARemove o) by (apply (nodup_map_inj act_obj (queue s)); auto; apply M).
@@ -489,7 +489,7 @@ Proof.
     + rewrite pass1_remove_eq by auto. sproj. intros a Ha K. apply remove_nat_In. split; auto.
       intros E. apply N1. cbn [act_obj]. rewrite <- E. apply in_map; auto.
     + rewrite pass1_remove_eq by auto. sproj. intros a Ha NK.
-      rewrite <- (scrub_nonconn o NK). apply in_map; auto.
+      rewrite <- (scrub_nonconn o a NK). apply in_map; auto.
   - apply IH; auto.
 Qed.
 
@@ -525,8 +525,8 @@ Proof.
     rewrite deref_in by auto. apply G; auto.
   - assert (Ho : In o (heap s)) by (apply (q_obj (w_q M) (AMove o)); auto; cbn; discriminate).
     rewrite deref_in by auto. apply G; auto.
-  - repeat split; auto using incl_refl. cbn; intros [|]; discriminate.
-  - repeat split; auto using incl_refl. cbn; intros [|]; discriminate.
+  - split; [exact M|split; [reflexivity|split; [apply incl_refl|cbn; intros [|]; discriminate]]].
+  - split; [exact M|split; [reflexivity|split; [apply incl_refl|cbn; intros [|]; discriminate]]].
 Qed.
 
 Lemma pass2_loop ck : forall r s, W nonRem ck s -> incl r (queue s) ->
@@ -535,7 +535,7 @@ Lemma pass2_loop ck : forall r s, W nonRem ck s -> incl r (queue s) ->
   (forall a, In a r -> akind a = KAdd \/ akind a = KMove -> In (act_obj a) (active s')).
 Proof.
   induction r as [|a r IH]; cbn [fold_left]; intros s M Hr.
-  - repeat split; auto using incl_refl. intros a [].
+  - split; [exact M|split; [reflexivity|split; [apply incl_refl|intros a []]]].
   - destruct (@pass2_one_W ck s a M) as (M1 & Q1 & A1 & B1); [apply Hr; left; auto|].
     destruct (IH (pass2_one s a) M1) as (M2 & Q2 & A2 & B2).
     { rewrite Q1. intros x Hx. apply Hr; right; auto. }
@@ -580,7 +580,7 @@ Lemma update_end_loop ck c : forall ups s, W nonRem ck s -> In c (heap s) -> In 
   incl (aconns s) (aconns s') /\ (ups <> [] -> In c (aconns s')).
 Proof.
   induction ups as [|u r IH]; cbn [fold_left]; intros s M Hc Cc He.
-  - repeat split; auto using incl_refl. congruence.
+  - split; [exact M|]. repeat (split; [reflexivity|]). split; [apply incl_refl|congruence].
   - destruct (@update_end_W ck c s u M Hc Cc) as (M1 & Q1 & H1 & C1 & A1 & B1).
     { intros o Ho. apply (He u); auto. left; auto. }
     destruct (IH (update_end c s u) M1) as (M2 & Q2 & H2 & C2 & A2 & B2).
@@ -596,7 +596,7 @@ Lemma pass3_one_W ck s a : W nonRem ck s -> In a (queue s) ->
   (akind a = KConn -> In (act_obj a) (aconns s')).
 Proof.
   intros M Ha. destruct a as [o|o|o|c ups]; cbn [pass3_one];
-    try (repeat split; auto using incl_refl; cbn; discriminate).
+    try (split; [exact M|split; [reflexivity|split; [apply incl_refl|cbn; discriminate]]]).
   assert (Hc : In c (heap s)) by (apply (q_obj (w_q M) (AConn c ups)); auto; cbn; discriminate).
   assert (Cc : In c (cset s)) by (apply (q_cs (w_q M) (AConn c ups)); auto).
   assert (Ne : ups <> []) by (intros ->; apply (q_ne (w_q M) _ Ha)).
@@ -604,7 +604,7 @@ Proof.
   destruct (@update_end_loop ck c ups s M Hc Cc) as (M2 & Q2 & H2 & C2 & A2 & B2).
   { intros u o Hu Ho. apply (q_ends (w_q M) (AConn c ups)); auto.
     cbn [act_end_ids]. apply in_flat_map. eauto. }
-  repeat split; auto.
+  split; [exact M2|split; [exact Q2|split; [exact A2|intros _; apply B2; exact Ne]]].
 Qed.
 
 Lemma pass3_loop ck : forall r s, W nonRem ck s -> incl r (queue s) ->
@@ -613,7 +613,7 @@ Lemma pass3_loop ck : forall r s, W nonRem ck s -> incl r (queue s) ->
   (forall a, In a r -> akind a = KConn -> In (act_obj a) (aconns s')).
 Proof.
   induction r as [|a r IH]; cbn [fold_left]; intros s M Hr.
-  - repeat split; auto using incl_refl. intros a [].
+  - split; [exact M|split; [reflexivity|split; [apply incl_refl|intros a []]]].
   - destruct (@pass3_one_W ck s a M) as (M1 & Q1 & A1 & B1); [apply Hr; left; auto|].
     destruct (IH (pass3_one s a) M1) as (M2 & Q2 & A2 & B2).
     { rewrite Q1. intros x Hx. apply Hr; right; auto. }
@@ -631,7 +631,7 @@ Qed.
 
 Lemma process_Inv s : Inv s -> Inv (process true s).
 Proof.
-  intros I. unfold process. destruct (queue s) as [|a0 q0] eqn:Eq; auto. rewrite <- Eq. clear a0 q0 Eq.
+  intros I. unfold process. destruct (queue s) as [|a0 q0] eqn:Eq; auto. clear a0 q0 Eq.
   rewrite sort_derefs_id by (intros a Ha; apply (q_obj (w_q I)); auto; exact Logic.I).
   assert (M0 : Mid s).
   { apply W_weaken with allK pendK; auto.
@@ -645,11 +645,716 @@ Proof.
   fold (pass2 (pass1 true s)) in *.
   assert (M2' : W nonRem connK (pass2 (pass1 true s))).
   { apply W_cover_change with nonRem; auto. intros a Ha K. rewrite Q2 in Ha.
-    destruct a; cbn in *; auto; try (right; left; apply (B2 _ Ha); cbn; auto).
-    exfalso; apply K; auto. }
+    destruct a as [o|o|o|c ups].
+    - right; left. apply (B2 (AAdd o) Ha). cbn; auto.
+    - right; left. apply (B2 (AMove o) Ha). cbn; auto.
+    - exfalso; apply K; reflexivity.
+    - left. reflexivity. }
   destruct (@pass3_loop connK (queue (pass2 (pass1 true s))) (pass2 (pass1 true s)) M2' (incl_refl _)) as (M3 & Q3 & A3 & B3).
   fold (pass3 (pass2 (pass1 true s))) in *.
   apply W_clear_queue with nonRem.
   apply W_cover_change with connK; auto. intros a Ha K. rewrite Q3 in Ha.
   right; right. apply B3; auto.
 Qed.
+
+(* ---- fields that processActions does not change; objects it does not free ---- *)
+Definition cat (s : st) := (cset s, alive s, trans s).
+
+Lemma deref_cat x s : cat (deref x s) = cat s.
+Proof. unfold deref. destruct (mem x (heap s)); reflexivity. Qed.
+Lemma deref_heap x s : heap (deref x s) = heap s.
+Proof. unfold deref. destruct (mem x (heap s)); reflexivity. Qed.
+Lemma deref_queue x s : queue (deref x s) = queue s.
+Proof. unfold deref. destruct (mem x (heap s)); reflexivity. Qed.
+Lemma deref_end_cat e s : cat (deref_end e s) = cat s.
+Proof. destruct e; cbn [deref_end]; auto using deref_cat. Qed.
+Lemma deref_end_heap e s : heap (deref_end e s) = heap s.
+Proof. destruct e; cbn [deref_end]; auto using deref_heap. Qed.
+
+Lemma pass1_one_cat fk s a : cat (pass1_one fk s a) = cat s.
+Proof.
+  destruct a; cbn [pass1_one]; auto; unfold free_obj, cat; sproj; apply (deref_cat o s).
+Qed.
+Lemma pass2_one_cat s a : cat (pass2_one s a) = cat s.
+Proof. destruct a; cbn [pass2_one]; auto; unfold cat; sproj; apply (deref_cat o s). Qed.
+Lemma pass2_one_heap s a : heap (pass2_one s a) = heap s.
+Proof. destruct a; cbn [pass2_one]; auto; sproj; apply deref_heap. Qed.
+Lemma update_end_cat c s u : cat (update_end c s u) = cat s.
+Proof. unfold update_end, cat; sproj. apply (deref_end_cat (snd u) s). Qed.
+Lemma update_end_heap c s u : heap (update_end c s u) = heap s.
+Proof. unfold update_end; sproj. apply deref_end_heap. Qed.
+Lemma pass3_one_cat s a : cat (pass3_one s a) = cat s.
+Proof.
+  destruct a; cbn [pass3_one]; auto. rewrite fold_pres by (intros; apply update_end_cat). apply deref_cat.
+Qed.
+Lemma pass3_one_heap s a : heap (pass3_one s a) = heap s.
+Proof.
+  destruct a; cbn [pass3_one]; auto. rewrite fold_pres by (intros; apply update_end_heap). apply deref_heap.
+Qed.
+
+Lemma sort_derefs_cat s : cat (sort_derefs s) = cat s.
+Proof. unfold sort_derefs. apply fold_pres. intros; apply deref_cat. Qed.
+Lemma sort_derefs_heap s : heap (sort_derefs s) = heap s.
+Proof. unfold sort_derefs. apply fold_pres. intros; apply deref_heap. Qed.
+Lemma sort_derefs_queue s : queue (sort_derefs s) = queue s.
+Proof. unfold sort_derefs. apply fold_pres. intros; apply deref_queue. Qed.
+
+Lemma process_cat fk s : cat (process fk s) = cat s.
+Proof.
+  unfold process. destruct (queue s); auto. unfold set_queue, cat at 1; sproj.
+  change (cat (pass3 (pass2 (pass1 fk (sort_derefs s)))) = cat s).
+  unfold pass3. rewrite fold_pres by (intros; apply pass3_one_cat).
+  unfold pass2. rewrite fold_pres by (intros; apply pass2_one_cat).
+  unfold pass1. rewrite fold_pres by (intros; apply pass1_one_cat).
+  apply sort_derefs_cat.
+Qed.
+
+Lemma process_queue fk s : queue (process fk s) = [].
+Proof. unfold process. destruct (queue s) eqn:E; auto. Qed.
+
+Lemma pass1_heap_keep fk x : forall l s, In x (heap s) -> ~ In (ARemove x) l ->
+  In x (heap (fold_left (pass1_one fk) l s)).
+Proof.
+  induction l as [|a r IH]; cbn [fold_left]; intros s Hx Nr; auto.
+  apply IH; [|intros H; apply Nr; right; auto].
+  destruct a; cbn [pass1_one]; auto; unfold free_obj; sproj; rewrite deref_heap; auto.
+  apply remove_nat_In. split; auto. intros ->. apply Nr; left; auto.
+Qed.
+
+Lemma process_heap_keep fk s x : In x (heap s) -> ~ In (ARemove x) (queue s) -> In x (heap (process fk s)).
+Proof.
+  intros Hx Nr. unfold process. destruct (queue s) eqn:E; auto. rewrite <- E in Nr.
+  unfold set_queue; sproj.
+  unfold pass3. rewrite fold_pres by (intros; apply pass3_one_heap).
+  unfold pass2. rewrite fold_pres by (intros; apply pass2_one_heap).
+  unfold pass1. apply pass1_heap_keep.
+  - rewrite sort_derefs_heap; auto.
+  - rewrite sort_derefs_queue; auto.
+Qed.
+
+Lemma maybe_process_Inv s : Inv s -> Inv (maybe_process true s).
+Proof. intros I. unfold maybe_process. destruct (trans s); auto using process_Inv. Qed.
+
+Lemma maybe_process_cat fk s : cat (maybe_process fk s) = cat s.
+Proof. unfold maybe_process. destruct (trans s); auto using process_cat. Qed.
+
+Lemma maybe_process_heap_keep fk s x :
+  In x (heap s) -> ~ In (ARemove x) (queue s) -> In x (heap (maybe_process fk s)).
+Proof. unfold maybe_process. destruct (trans s); auto using process_heap_keep. Qed.
+
+Lemma maybe_process_no_new_remove fk s x :
+  ~ In (ARemove x) (queue s) -> ~ In (ARemove x) (queue (maybe_process fk s)).
+Proof.
+  unfold maybe_process. destruct (trans s); auto. rewrite process_queue. intros _ [].
+Qed.
+
+Lemma cat_cset s s' : cat s = cat s' -> cset s = cset s'.
+Proof. unfold cat. congruence. Qed.
+Lemma cat_alive s s' : cat s = cat s' -> alive s = alive s'.
+Proof. unfold cat. congruence. Qed.
+
+Lemma maybe_process_client_holds fk s x :
+  client_holds s x = true -> client_holds (maybe_process fk s) x = true.
+Proof.
+  rewrite !client_holds_spec. intros (H1 & H2 & H3). split; [|split].
+  - apply maybe_process_heap_keep; auto.
+  - rewrite (cat_cset (maybe_process_cat fk s)); auto.
+  - apply maybe_process_no_new_remove; auto.
+Qed.
+
+Lemma maybe_process_end_ok fk s e : end_ok s e = true -> end_ok (maybe_process fk s) e = true.
+Proof. destruct e; cbn [end_ok]; auto using maybe_process_client_holds. Qed.
+
+(* ------------------------------------------------------------------------------------------ *)
+(* client operations                                                                          *)
+(* ------------------------------------------------------------------------------------------ *)
+Lemma NoDup_map_filter (A B : Type) (g : A -> B) (f : A -> bool) l :
+  NoDup (map g l) -> NoDup (map g (filter f l)).
+Proof.
+  induction l as [|a r IH]; cbn [map filter]; intros ND; auto.
+  apply NoDup_cons_iff in ND. destruct ND as [N1 N2].
+  destruct (f a); cbn [map]; auto. constructor; auto.
+  intros Hin. apply N1. apply in_map_iff in Hin. destruct Hin as [b [E Hb]].
+  apply filter_In in Hb. rewrite <- E. apply in_map; tauto.
+Qed.
+
+Lemma QOK_filter H CS qk q f : QOK H CS qk q -> QOK H CS qk (filter f q).
+Proof.
+  intros Q. constructor.
+  - intros a Ha. apply filter_In in Ha. apply (q_obj Q); tauto.
+  - intros a o Ha. apply filter_In in Ha. apply (q_ends Q); tauto.
+  - apply NoDup_map_filter, Q.
+  - intros a Ha. apply filter_In in Ha. apply (q_cs Q); tauto.
+  - intros a Ha. apply filter_In in Ha. apply (q_ne Q); tauto.
+Qed.
+
+Lemma QOK_heap_mono H H' CS qk q : QOK H CS qk q -> incl H H' -> QOK H' CS qk q.
+Proof.
+  intros Q Hi. constructor; try apply Q.
+  - intros a Ha K. apply Hi, (q_obj Q); auto.
+  - intros a o Ha Ho. destruct (q_ends Q _ _ Ha Ho). auto.
+Qed.
+
+Lemma QOK_snoc H CS qk q a :
+  QOK H CS qk q -> In (act_obj a) H -> akind a <> KConn -> ~ In (act_obj a) (map act_obj q) ->
+  ~ In (act_obj a) CS -> QOK H CS qk (q ++ [a]).
+Proof.
+  intros Q Ha NK Nin NC.
+  assert (Ee : act_end_ids a = []) by (destruct a; cbn in *; auto; congruence).
+  constructor.
+  - intros b Hb K. apply in_app_iff in Hb. destruct Hb as [Hb|[<-|[]]]; auto. apply (q_obj Q); auto.
+  - intros b o Hb Ho. apply in_app_iff in Hb. destruct Hb as [Hb|[<-|[]]].
+    + apply (q_ends Q b); auto.
+    + rewrite Ee in Ho. destruct Ho.
+  - rewrite map_app. cbn [map]. apply NoDup_snoc; auto. apply Q.
+  - intros b Hb. apply in_app_iff in Hb. destruct Hb as [Hb|[<-|[]]].
+    + apply (q_cs Q); auto.
+    + tauto.
+  - intros b Hb. apply in_app_iff in Hb. destruct Hb as [Hb|[<-|[]]].
+    + apply (q_ne Q); auto.
+    + destruct a; cbn in *; auto; congruence.
+Qed.
+
+Lemma end_ok_spec s e : end_ok s e = true ->
+  forall o, In o (end_ids e) -> In o (heap s) /\ ~ In o (cset s).
+Proof.
+  destruct e as [|x]; cbn [end_ok end_ids]; intros H o Ho.
+  - destruct Ho.
+  - destruct Ho as [<-|[]]. apply client_holds_spec in H. tauto.
+Qed.
+
+Lemma Inv_fresh_not_cset s x : Inv s -> ~ In x (heap s) -> ~ In x (freed s) -> ~ In x (cset s).
+Proof. intros I H1 H2 H3. destruct (w_cs I x H3); auto. Qed.
+
+(* an obstacle the client still holds has no queued action of the listed kinds *)
+Lemma no_obj_in_queue s x q' :
+  Inv s -> ~ In x (cset s) -> incl q' (queue s) ->
+  (forall a, In a q' -> a <> AAdd x /\ a <> AMove x /\ a <> ARemove x) ->
+  ~ In x (map act_obj q').
+Proof.
+  intros I NC Hi Hf Hin. apply in_map_iff in Hin. destruct Hin as [a [E Ha]].
+  destruct (Hf a Ha) as (F1 & F2 & F3). apply Hi in Ha.
+  destruct a as [o|o|o|c ups]; cbn [act_obj] in E; subst; try congruence.
+  apply NC. apply (q_cs (w_q I) (AConn x ups)); auto.
+Qed.
+
+Lemma newobst_Inv s x : Inv s -> ~ In x (heap s) -> ~ In x (freed s) ->
+  Inv (mkst (x :: heap s) (cset s) (active s) (aconns s) (attached s) (queue s ++ [AAdd x])
+            (freed s) (bad s) (trans s) (alive s)).
+Proof.
+  intros I Nh Nf. pose proof (@Inv_fresh_not_cset s x I Nh Nf) as Nc.
+  constructor; sproj; try apply I.
+  - apply QOK_snoc; cbn [act_obj akind]; auto; try discriminate.
+    + apply QOK_heap_mono with (heap s); [apply I|apply incl_tl, incl_refl].
+    + left; auto.
+    + intros Hin. apply in_map_iff in Hin. destruct Hin as [a [E Ha]].
+      apply Nh. rewrite <- E. apply (q_obj (w_q I)); auto. exact Logic.I.
+  - intros c w o H. destruct (w_att I c w o H) as (?&?&?&?). repeat split; auto; right; auto.
+  - apply incl_tl, I.
+  - apply incl_tl, I.
+  - intros y Hy. destruct (w_cs I y Hy); auto. left; right; auto.
+  - constructor; auto. apply I.
+  - intros y [<-|Hy]; auto. apply (w_heap_fr I); auto.
+  - intros y [<-|Hy].
+    + right; right. exists (AAdd x). split; [apply in_app_iff; right; left; auto|].
+      split; auto. left; reflexivity.
+    + destruct (w_cover I y Hy) as [?|[?|[a [H1 H2]]]]; auto.
+      right; right. exists a. split; auto. apply in_app_iff; auto.
+Qed.
+
+Lemma QOK_new_conn H CS q c : QOK H CS allK q -> ~ In c H -> QOK (c :: H) (c :: CS) allK q.
+Proof.
+  intros Q Nc. constructor; try apply Q.
+  - intros a Ha K. right. apply (q_obj Q); auto.
+  - intros a o Ha Ho. destruct (q_ends Q _ _ Ha Ho) as [H1 H2]. split; [right; auto|].
+    intros [<-|H3]; auto.
+  - intros a Ha. pose proof (q_obj Q a Ha Logic.I) as Hh. pose proof (q_cs Q a Ha) as Hc.
+    split.
+    + intros K. right. tauto.
+    + intros [E|H3]; [rewrite <- E in Hh; tauto|tauto].
+Qed.
+
+Lemma newconn_Inv s c w e : Inv s -> ~ In c (heap s) -> ~ In c (freed s) -> end_ok s e = true ->
+  Inv (mkst (c :: heap s) (c :: cset s) (active s) (aconns s) (attached s)
+            (modify_conn_q (queue s) c w e false) (freed s) (bad s) (trans s) (alive s)).
+Proof.
+  intros I Nh Nf He. pose proof (end_ok_spec s e He) as Hends.
+  constructor; sproj; try apply I.
+  - apply QOK_modify; try (left; reflexivity).
+    + apply QOK_new_conn; auto. apply I.
+    + intros o Ho. destruct (Hends o Ho) as [H1 H2]. split; [right; auto|].
+      intros [<-|H3]; auto.
+  - intros c' w' o H. destruct (w_att I c' w' o H) as (H1&H2&H3&H4).
+    repeat split; try (right; auto; fail). intros [<-|H5]; auto.
+  - apply incl_tl, I.
+  - apply incl_tl, I.
+  - intros y [<-|Hy]; [left; left; auto|]. destruct (w_cs I y Hy); auto. left; right; auto.
+  - constructor; auto. apply I.
+  - intros y [<-|Hy]; auto. apply (w_heap_fr I); auto.
+  - intros y [<-|Hy].
+    + right; right. destruct (mq_in_c (queue s) c w e false) as [a' [H1 [H2 H3]]].
+      exists a'. split; auto. split; auto. rewrite H2. right; reflexivity.
+    + destruct (w_cover I y Hy) as [?|[?|[a [H1 [H2 H3]]]]]; auto.
+      right; right.
+      destruct (@mq_in_pres (queue s) c w e false a H1) as [a'' [F1 [F2 F3]]].
+      exists a''. rewrite F2, F3. auto.
+Qed.
+
+Lemma setend_Inv s c w e : Inv s -> In c (heap s) -> In c (cset s) -> end_ok s e = true ->
+  Inv (set_queue s (modify_conn_q (queue s) c w e false)).
+Proof.
+  intros I Hc Cc He. pose proof (end_ok_spec s e He) as Hends.
+  unfold set_queue. constructor; sproj; try apply I.
+  - apply QOK_modify; auto. apply I.
+  - intros y Hy. destruct (w_cover I y Hy) as [?|[?|[a [H1 [H2 H3]]]]]; auto.
+    right; right. destruct (@mq_in_pres (queue s) c w e false a H1) as [a'' [F1 [F2 F3]]].
+    exists a''. rewrite F2, F3. auto.
+Qed.
+
+Lemma move_Inv s x : Inv s -> client_holds s x = true ->
+  ~ In (AAdd x) (queue s) -> ~ In (AMove x) (queue s) ->
+  Inv (set_queue s (queue s ++ [AMove x])).
+Proof.
+  intros I Hc Na Nm. apply client_holds_spec in Hc. destruct Hc as (Hh & Nc & Nr).
+  unfold set_queue. constructor; sproj; try apply I.
+  - apply QOK_snoc; cbn [act_obj akind]; auto; try discriminate; [apply I|].
+    apply no_obj_in_queue with s; auto using incl_refl. intros a Ha.
+    repeat split; intros ->; auto.
+  - intros y Hy. destruct (w_cover I y Hy) as [?|[?|[a [H1 H2]]]]; auto.
+    right; right. exists a. split; auto. apply in_app_iff; auto.
+Qed.
+
+Lemma delobst_Inv s x : Inv s -> client_holds s x = true -> ~ In (AAdd x) (queue s) ->
+  Inv (set_queue s (filter (fun a => negb (act_is_move x a)) (queue s) ++ [ARemove x])).
+Proof.
+  intros I Hc Na. apply client_holds_spec in Hc. destruct Hc as (Hh & Nc & Nr).
+  unfold set_queue. constructor; sproj; try apply I.
+  - apply QOK_snoc; cbn [act_obj akind]; auto; try discriminate; [apply QOK_filter, I|].
+    apply no_obj_in_queue with s; auto.
+    + intros a Ha. apply filter_In in Ha. tauto.
+    + intros a Ha. apply filter_In in Ha. destruct Ha as [Ha Hf].
+      repeat split; intros ->; auto.
+      cbn in Hf. rewrite Nat.eqb_refl in Hf. discriminate.
+  - intros y Hy. destruct (w_cover I y Hy) as [?|[?|[a [H1 [H2 H3]]]]]; auto.
+    right; right. exists a. split; auto. apply in_app_iff; left. apply filter_In. split; auto.
+    destruct H3 as [K|K]; destruct a; cbn in K; try discriminate; reflexivity.
+Qed.
+
+Lemma delconn_Inv s c : Inv s -> In c (heap s) -> In c (cset s) ->
+  Inv (free_obj c (mkst (heap s) (cset s) (active s) (aconns s)
+                    (filter (fun t => negb (Nat.eqb c (fst (fst t)))) (attached s))
+                    (filter (fun a => negb (Nat.eqb c (act_obj a))) (queue s))
+                    (freed s) (bad s) (trans s) (alive s))).
+Proof.
+  intros I Hc Cc. unfold free_obj. sproj. constructor; sproj.
+  - pose proof (QOK_filter (fun a => negb (Nat.eqb c (act_obj a))) (w_q I)) as Q. constructor; try apply Q.
+    + intros a Ha K. apply remove_nat_In. split; [apply (q_obj Q); auto|].
+      apply filter_In in Ha. destruct Ha as [_ Hf]. apply negb_true_iff, Nat.eqb_neq in Hf. auto.
+    + intros a o Ha Ho. destruct (q_ends Q _ _ Ha Ho) as [H1 H2]. split; auto.
+      apply remove_nat_In. split; auto. intros ->; auto.
+  - intros c' w o H. apply filter_In in H. destruct H as [H Hf]. cbn [fst] in Hf.
+    apply negb_true_iff, Nat.eqb_neq in Hf.
+    destruct (w_att I c' w o H) as (H1&H2&H3&H4). repeat split; auto; apply remove_nat_In; split; auto.
+    intros ->; auto.
+  - intros y Hy. apply remove_nat_In in Hy. apply remove_nat_In. split; [apply (w_act I)|]; tauto.
+  - intros y Hy. apply remove_nat_In in Hy. apply remove_nat_In. split; [apply (w_acn I)|]; tauto.
+  - apply remove_nat_NoDup, I.
+  - apply remove_nat_NoDup, I.
+  - intros y Hy. destruct (Nat.eq_dec y c) as [->|Ny]; [right; left; auto|].
+    destruct (w_cs I y Hy); [left; apply remove_nat_In; auto|right; right; auto].
+  - apply mem_In in Hc. rewrite Hc. apply I.
+  - apply remove_nat_NoDup, I.
+  - intros y Hy. apply remove_nat_In in Hy. destruct Hy as [Hy Ny].
+    intros [E|F]; [congruence|]. apply (w_heap_fr I y); auto.
+  - intros y Hy. apply remove_nat_In in Hy. destruct Hy as [Hy Ny].
+    destruct (w_cover I y Hy) as [?|[?|[a [H1 [H2 H3]]]]].
+    + left. apply remove_nat_In; auto.
+    + right; left. apply remove_nat_In; auto.
+    + right; right. exists a. split; auto. apply filter_In. split; auto.
+      apply negb_true_iff, Nat.eqb_neq. congruence.
+Qed.
+
+(* ---- ~Router ---- *)
+Definition ffold (l : list nat) (s : st) : st := fold_left (fun s x => free_obj x s) l s.
+Definition rm_all (l : list nat) (h : list nat) : list nat := fold_left (fun h x => remove_nat x h) l h.
+
+Lemma rm_all_In l : forall h x, In x (rm_all l h) <-> In x h /\ ~ In x l.
+Proof.
+  unfold rm_all. induction l as [|y r IH]; cbn [fold_left]; intros h x.
+  - cbn. tauto.
+  - rewrite IH, remove_nat_In. cbn. intuition.
+Qed.
+Lemma rm_all_NoDup l : forall h, NoDup h -> NoDup (rm_all l h).
+Proof.
+  unfold rm_all. induction l as [|y r IH]; cbn [fold_left]; intros h ND; auto.
+  apply IH, remove_nat_NoDup, ND.
+Qed.
+
+Lemma ff_heap l : forall s, heap (ffold l s) = rm_all l (heap s).
+Proof. unfold ffold, rm_all. induction l as [|y r IH]; cbn [fold_left]; intros s; auto. rewrite IH. reflexivity. Qed.
+Lemma ff_active l : forall s, active (ffold l s) = rm_all l (active s).
+Proof. unfold ffold, rm_all. induction l as [|y r IH]; cbn [fold_left]; intros s; auto. rewrite IH. reflexivity. Qed.
+Lemma ff_aconns l : forall s, aconns (ffold l s) = rm_all l (aconns s).
+Proof. unfold ffold, rm_all. induction l as [|y r IH]; cbn [fold_left]; intros s; auto. rewrite IH. reflexivity. Qed.
+Lemma ff_cat l : forall s, cat (ffold l s) = cat s.
+Proof. unfold ffold. apply fold_pres. reflexivity. Qed.
+
+Definition known (s : st) (x : nat) : Prop := In x (heap s) \/ In x (freed s).
+Lemma ff_known l x : forall s, known s x -> known (ffold l s) x.
+Proof.
+  unfold ffold. induction l as [|y r IH]; cbn [fold_left]; intros s K; auto.
+  apply IH. unfold known, free_obj; sproj. destruct (Nat.eq_dec x y) as [->|N]; [right; left; auto|].
+  destruct K; [left; apply remove_nat_In; auto|right; right; auto].
+Qed.
+
+Lemma ff_bad l : forall s, NoDup l -> incl l (heap s) -> bad s = [] -> bad (ffold l s) = [].
+Proof.
+  unfold ffold. induction l as [|y r IH]; cbn [fold_left]; intros s ND Hi Hb; auto.
+  apply NoDup_cons_iff in ND. destruct ND as [N1 N2].
+  apply IH; auto.
+  - unfold free_obj; sproj. intros x Hx. apply remove_nat_In. split; [apply Hi; right; auto|].
+    intros ->; auto.
+  - unfold free_obj; sproj. assert (In y (heap s)) as Hy by (apply Hi; left; auto).
+    apply mem_In in Hy. rewrite Hy. auto.
+Qed.
+
+Definition pend_conn (acn : list nat) (a : act) : list nat :=
+  match a with AConn c _ => if mem c acn then [] else [c] | _ => [] end.
+Definition pend_obst (a : act) : list nat := match a with AAdd o => [o] | _ => [] end.
+
+Lemma nodup_flat_obj (f : act -> list nat) q :
+  (forall a, f a = [] \/ f a = [act_obj a]) -> NoDup (map act_obj q) -> NoDup (flat_map f q).
+Proof.
+  intros Hf. induction q as [|a r IH]; cbn [map flat_map]; intros ND; [constructor|].
+  apply NoDup_cons_iff in ND. destruct ND as [N1 N2].
+  destruct (Hf a) as [E|E]; rewrite E; cbn [app]; auto.
+  constructor; auto. intros Hin. apply in_flat_map in Hin. destruct Hin as [b [Hb Hx]].
+  apply N1. destruct (Hf b) as [Eb|Eb]; rewrite Eb in Hx; [destruct Hx|].
+  destruct Hx as [<-|[]]. apply in_map; auto.
+Qed.
+
+Lemma pend_conn_In acn q x :
+  In x (flat_map (pend_conn acn) q) <-> (exists ups, In (AConn x ups) q) /\ ~ In x acn.
+Proof.
+  rewrite in_flat_map. split.
+  - intros [a [Ha Hx]]. destruct a; cbn [pend_conn] in Hx; try destruct Hx.
+    destruct (mem c acn) eqn:E; [destruct Hx|]. destruct Hx as [<-|[]].
+    apply mem_nIn in E. eauto.
+  - intros [[ups Ha] N]. exists (AConn x ups). split; auto. cbn [pend_conn].
+    apply mem_nIn in N. rewrite N. left; auto.
+Qed.
+
+Lemma pend_obst_In q x : In x (flat_map pend_obst q) <-> In (AAdd x) q.
+Proof.
+  rewrite in_flat_map. split.
+  - intros [a [Ha Hx]]. destruct a; cbn [pend_obst] in Hx; try destruct Hx. subst; auto. destruct H.
+  - intros Ha. exists (AAdd x). split; auto. left; auto.
+Qed.
+
+Lemma destroy_eq s :
+  destroy true s =
+  let s1 := ffold (flat_map (pend_conn (aconns s)) (queue s)) s in
+  let s2 := ffold (flat_map pend_obst (queue s)) s1 in
+  let s3 := ffold (aconns s2) s2 in
+  let s4 := ffold (active s3) s3 in
+  mkst (heap s4) (cset s4) [] [] [] [] (freed s4) (bad s4) (trans s4) false.
+Proof. reflexivity. Qed.
+
+Lemma destroy_Inv s : Inv s -> Inv (destroy true s) /\ heap (destroy true s) = [].
+Proof.
+  intros I. rewrite destroy_eq. cbv zeta.
+  set (pc := flat_map (pend_conn (aconns s)) (queue s)).
+  set (po := flat_map pend_obst (queue s)).
+  assert (NDpc : NoDup pc).
+  { apply nodup_flat_obj; [|apply (q_nd (w_q I))].
+    intros a; destruct a; cbn; auto. destruct (mem c (aconns s)); auto. }
+  assert (NDpo : NoDup po).
+  { apply nodup_flat_obj; [|apply (q_nd (w_q I))]. intros a; destruct a; cbn; auto. }
+  assert (Hpc : forall x, In x pc -> In x (heap s) /\ In x (cset s)).
+  { intros x Hx. apply pend_conn_In in Hx. destruct Hx as [[ups Ha] _]. split.
+    - apply (q_obj (w_q I) (AConn x ups)); auto. exact Logic.I.
+    - apply (q_cs (w_q I) (AConn x ups)); auto. }
+  assert (Hpo : forall x, In x po -> In x (heap s) /\ ~ In x (cset s)).
+  { intros x Hx. apply pend_obst_In in Hx. split.
+    - apply (q_obj (w_q I) (AAdd x)); auto. exact Logic.I.
+    - intros Hc. apply (q_cs (w_q I) (AAdd x)) in Hc; auto. discriminate. }
+  set (s1 := ffold pc s).
+  assert (B1 : bad s1 = []).
+  { apply ff_bad; auto; [|apply I]. intros x Hx. apply Hpc; auto. }
+  set (s2 := ffold po s1).
+  assert (B2 : bad s2 = []).
+  { apply ff_bad; auto. intros x Hx. unfold s1. rewrite ff_heap. apply rm_all_In.
+    destruct (Hpo x Hx). split; auto. intros Hc. apply Hpc in Hc. tauto. }
+  set (s3 := ffold (aconns s2) s2).
+  assert (A2 : forall x, In x (aconns s2) <-> In x (aconns s) /\ ~ In x pc /\ ~ In x po).
+  { intros x. unfold s2, s1. rewrite !ff_aconns, !rm_all_In. tauto. }
+  assert (H2 : forall x, In x (heap s2) <-> In x (heap s) /\ ~ In x pc /\ ~ In x po).
+  { intros x. unfold s2, s1. rewrite !ff_heap, !rm_all_In. tauto. }
+  assert (B3 : bad s3 = []).
+  { apply ff_bad; auto.
+    - unfold s2, s1. rewrite !ff_aconns. apply rm_all_NoDup, rm_all_NoDup, I.
+    - intros x Hx. apply H2. apply A2 in Hx. destruct Hx as (Hx & ? & ?). split; auto.
+      apply (w_acn I); auto. }
+  set (s4 := ffold (active s3) s3).
+  assert (A3 : forall x, In x (active s3) <->
+                         In x (active s) /\ ~ In x pc /\ ~ In x po /\ ~ In x (aconns s2)).
+  { intros x. unfold s3, s2, s1. rewrite !ff_active, !rm_all_In. tauto. }
+  assert (H3 : forall x, In x (heap s3) <->
+                         In x (heap s) /\ ~ In x pc /\ ~ In x po /\ ~ In x (aconns s2)).
+  { intros x. unfold s3. rewrite ff_heap, rm_all_In, H2. tauto. }
+  assert (B4 : bad s4 = []).
+  { apply ff_bad; auto.
+    - unfold s3, s2, s1. rewrite !ff_active. apply rm_all_NoDup, rm_all_NoDup, rm_all_NoDup, I.
+    - intros x Hx. apply H3. apply A3 in Hx. destruct Hx as (Hx & ? & ? & ?). repeat split; auto.
+      apply (w_act I); auto. }
+  assert (H4 : heap s4 = []).
+  { destruct (heap s4) as [|x r] eqn:E; auto. exfalso.
+    assert (Hx : In x (heap s4)) by (rewrite E; left; auto).
+    unfold s4 in Hx. rewrite ff_heap, rm_all_In, H3 in Hx.
+    destruct Hx as ((Hx & N1 & N2 & N3) & N4).
+    assert (Nac : ~ In x (aconns s)) by (intros Hc; apply N3, A2; auto).
+    destruct (w_cover I x Hx) as [Hc|[Hc|[a [G1 [G2 G3]]]]]; auto.
+    - apply N4, A3; auto.
+    - destruct G3 as [K|K]; destruct a; cbn in K; try discriminate; cbn [act_obj] in G2; subst.
+      + apply N2. apply pend_obst_In; auto.
+      + apply N1. apply pend_conn_In. eauto. }
+  assert (Ec : cset s4 = cset s).
+  { unfold s4, s3, s2, s1. rewrite !(cat_cset (ff_cat _ _)). reflexivity. }
+  assert (Kn : forall x, known s x -> known s4 x).
+  { intros x Hx. unfold s4, s3, s2, s1. repeat apply ff_known. exact Hx. }
+  clearbody s4. split; [|exact H4].
+  constructor; sproj.
+  - apply QOK_nil.
+  - intros c w o [].
+  - intros x [].
+  - intros x [].
+  - constructor.
+  - constructor.
+  - intros x Hx. rewrite Ec in Hx. apply (w_cs I) in Hx. apply (Kn x Hx).
+  - exact B4.
+  - rewrite H4. constructor.
+  - rewrite H4. intros x [].
+  - rewrite H4. intros x [].
+Qed.
+
+(* ------------------------------------------------------------------------------------------ *)
+(* every step preserves the invariant                                                         *)
+(* ------------------------------------------------------------------------------------------ *)
+Lemma step_Inv s o : Inv s -> Inv (step true true s o).
+Proof.
+  intros I. unfold step. destruct (legal s o) eqn:L; cbn [negb]; auto.
+  unfold legal in L. apply andb_true_iff in L. destruct L as [_ L].
+  destruct o as [x|c e1 e2|c w e|x|x|c| |].
+  - apply fresh_spec in L. destruct L. apply maybe_process_Inv, newobst_Inv; auto.
+  - apply andb_true_iff in L. destruct L as [L L2]. apply andb_true_iff in L. destruct L as [L L1].
+    apply fresh_spec in L. destruct L as [Nh Nf].
+    cbv zeta. unfold set_queue at 2. sproj.
+    pose proof (@newconn_Inv s c false e1 I Nh Nf L1) as I1.
+    apply maybe_process_Inv in I1.
+    match goal with |- Inv (maybe_process true (set_queue ?s1 _)) => set (s' := s1) in * end.
+    apply maybe_process_Inv, setend_Inv; auto.
+    + apply maybe_process_heap_keep; unfold set_queue; sproj; [left; auto|].
+      intros Hr. apply mq_in_inv in Hr. destruct Hr as [[K _]|Hr]; [discriminate|].
+      apply Nh. apply (q_obj (w_q I) (ARemove c)); auto. exact Logic.I.
+    + rewrite (cat_cset (maybe_process_cat _ _)). unfold set_queue; sproj. left; auto.
+    + apply maybe_process_end_ok.
+      destruct e2 as [|o]; cbn [end_ok] in *; auto.
+      apply client_holds_spec in L2. apply client_holds_spec. unfold set_queue; sproj.
+      destruct L2 as (H1 & H2 & H3). split; [right; auto|]. split.
+      * intros [<-|H4]; auto.
+      * intros Hr. apply mq_in_inv in Hr. destruct Hr as [[K _]|Hr]; [discriminate|auto].
+  - apply andb_true_iff in L. destruct L as [L L2]. apply andb_true_iff in L. destruct L as [L0 L1].
+    apply mem_In in L0. apply mem_In in L1. apply maybe_process_Inv, setend_Inv; auto.
+  - destruct (existsb (act_is_add x) (queue s)) eqn:Ea; auto.
+    destruct (existsb (act_is_move x) (queue s)) eqn:Em; [apply maybe_process_Inv; auto|].
+    apply maybe_process_Inv, move_Inv; auto.
+    + rewrite <- is_add_In. congruence.
+    + rewrite <- is_move_In. congruence.
+  - apply andb_true_iff in L. destruct L as [L L1]. apply negb_true_iff in L1.
+    apply maybe_process_Inv, delobst_Inv; auto. rewrite <- is_add_In. congruence.
+  - apply andb_true_iff in L. destruct L as [L0 L1].
+    apply mem_In in L0. apply mem_In in L1. apply delconn_Inv; auto.
+  - apply process_Inv; auto.
+  - apply destroy_Inv; auto.
+Qed.
+
+Lemma init_Inv t : Inv (init t).
+Proof.
+  unfold init. constructor; sproj.
+  - apply QOK_nil.
+  - intros c w o [].
+  - intros x [].
+  - intros x [].
+  - constructor.
+  - constructor.
+  - intros x [].
+  - reflexivity.
+  - constructor.
+  - intros x [].
+  - intros x [].
+Qed.
+
+Lemma run_Inv t ops : Inv (run true true t ops).
+Proof.
+  unfold run. generalize (init_Inv t). generalize (init t).
+  induction ops as [|o r IH]; cbn [fold_left]; intros s I; auto. apply IH, step_Inv, I.
+Qed.
+
+(* ------------------------------------------------------------------------------------------ *)
+(* the properties                                                                             *)
+(* ------------------------------------------------------------------------------------------ *)
+Theorem no_use_after_free : forall t ops, bad (run true true t ops) = [].
+Proof. intros. apply (w_bad (run_Inv t ops)). Qed.
+
+Theorem queue_objects_live : forall t ops a,
+  In a (queue (run true true t ops)) -> In (act_obj a) (heap (run true true t ops)).
+Proof. intros t ops a Ha. apply (q_obj (w_q (run_Inv t ops)) a Ha). exact Logic.I. Qed.
+
+Theorem queue_ends_live : forall t ops a o,
+  In a (queue (run true true t ops)) -> In o (act_end_ids a) -> In o (heap (run true true t ops)).
+Proof. intros t ops a o Ha Ho. apply (q_ends (w_q (run_Inv t ops)) a o Ha Ho). Qed.
+
+Theorem attached_live : forall t ops c w o,
+  In (c, w, o) (attached (run true true t ops)) ->
+  In c (heap (run true true t ops)) /\ In o (heap (run true true t ops)).
+Proof. intros t ops c w o H. destruct (w_att (run_Inv t ops) c w o H) as (?&?&?&?). auto. Qed.
+
+Theorem heap_nodup_fresh : forall t ops,
+  NoDup (heap (run true true t ops)) /\
+  forall x, In x (heap (run true true t ops)) -> ~ In x (freed (run true true t ops)).
+Proof. intros. split; [apply (w_heap_nd (run_Inv t ops))|apply (w_heap_fr (run_Inv t ops))]. Qed.
+
+(* ---- nothing is leaked once the router is destroyed ---- *)
+Lemma step_alive s o : o <> ODestroy -> alive (step true true s o) = alive s.
+Proof.
+  intros No. unfold step. destruct (legal s o); cbn [negb]; auto.
+  destruct o as [x|c e1 e2|c w e|x|x|c| |]; try congruence; cbv zeta.
+  - rewrite (cat_alive (maybe_process_cat _ _)). reflexivity.
+  - rewrite (cat_alive (maybe_process_cat _ _)). unfold set_queue at 1; sproj.
+    rewrite (cat_alive (maybe_process_cat _ _)). reflexivity.
+  - rewrite (cat_alive (maybe_process_cat _ _)). reflexivity.
+  - destruct (existsb (act_is_add x) (queue s)); auto.
+    destruct (existsb (act_is_move x) (queue s));
+      rewrite (cat_alive (maybe_process_cat _ _)); auto.
+  - rewrite (cat_alive (maybe_process_cat _ _)). reflexivity.
+  - reflexivity.
+  - apply (cat_alive (process_cat _ _)).
+Qed.
+
+Definition Inv2 (s : st) : Prop := Inv s /\ (alive s = false -> heap s = []).
+
+Lemma step_Inv2 s o : Inv2 s -> Inv2 (step true true s o).
+Proof.
+  intros [I D]. split; [apply step_Inv; auto|].
+  destruct (legal s o) eqn:L.
+  - destruct o; try (rewrite step_alive by discriminate; unfold legal in L;
+                     apply andb_true_iff in L; destruct L as [L _]; congruence).
+    intros _. unfold step. rewrite L. cbn [negb]. apply destroy_Inv; auto.
+  - unfold step. rewrite L. cbn [negb]. auto.
+Qed.
+
+Lemma run_Inv2 t ops : Inv2 (run true true t ops).
+Proof.
+  unfold run. assert (I0 : Inv2 (init t)) by (split; [apply init_Inv|cbn; discriminate]).
+  revert I0. generalize (init t).
+  induction ops as [|o r IH]; cbn [fold_left]; intros s I; auto. apply IH, step_Inv2, I.
+Qed.
+
+Theorem destroy_releases_all : forall t ops,
+  alive (run true true t ops) = false -> heap (run true true t ops) = [].
+Proof. intros t ops. apply (proj2 (run_Inv2 t ops)). Qed.
+
+(* ------------------------------------------------------------------------------------------ *)
+(* legality of a history; refutations for the code before the repairs; non-vacuity            *)
+(* ------------------------------------------------------------------------------------------ *)
+(* every op is legal in the state in which it is applied *)
+Fixpoint all_legal (fk fl : bool) (s : st) (ops : list op) : bool :=
+  match ops with [] => true | o :: r => legal s o && all_legal fk fl (step fk fl s o) r end.
+
+Definition uaf_witness : list op :=
+  [ONewObst 1; OProcess; ONewConn 10 (EObst 1) EPoint; ODelObst 1; OProcess].
+Definition leak_witness : list op := [ONewObst 2; ONewObst 3; ODestroy].
+
+(* F-k: before the repair (fk = false) processActions dereferences the freed obstacle 1 through the
+   connector-end copy queued by the ONewConn *)
+Lemma uaf_before_fix_witness :
+  all_legal false true (init true) uaf_witness = true /\ bad (run false true true uaf_witness) = [1].
+Proof. vm_compute. repeat split. Qed.
+
+Theorem uaf_refuted_before_fix :
+  exists t ops, all_legal false true (init t) ops = true /\ bad (run false true t ops) <> [].
+Proof.
+  exists true, uaf_witness. destruct uaf_before_fix_witness as [H1 H2]. split; auto.
+  rewrite H2. discriminate.
+Qed.
+
+(* F-l: before the repair (fl = false) ~Router leaks obstacles whose add is still queued *)
+Lemma leak_before_fix_witness :
+  all_legal true false (init true) leak_witness = true /\
+  alive (run true false true leak_witness) = false /\ heap (run true false true leak_witness) = [3; 2].
+Proof. vm_compute. repeat split. Qed.
+
+Theorem leak_refuted_before_fix :
+  exists t ops, all_legal true false (init t) ops = true /\
+                alive (run true false t ops) = false /\ heap (run true false t ops) <> [].
+Proof.
+  exists true, leak_witness. destruct leak_before_fix_witness as (H1 & H2 & H3). repeat split; auto.
+  rewrite H3. discriminate.
+Qed.
+
+(* the repaired code on the same witnesses *)
+Example uaf_witness_after_fix :
+  all_legal true true (init true) uaf_witness = true /\ bad (run true true true uaf_witness) = [] /\
+  heap (run true true true uaf_witness) = [10].
+Proof. vm_compute. repeat split. Qed.
+Example leak_witness_after_fix :
+  all_legal true true (init true) leak_witness = true /\ heap (run true true true leak_witness) = [] /\
+  freed (run true true true leak_witness) = [3; 2].
+Proof. vm_compute. repeat split. Qed.
+
+(* A 14-op history, all ops legal: obstacle 1 is moved while connector 10 is attached to it, obstacle 2
+   is deleted inside a pending transaction while a queued end of connector 10 refers to it, and the
+   router is destroyed with a non-empty queue. *)
+Definition demo : list op :=
+  [ONewObst 1; ONewObst 2; OProcess; ONewConn 10 (EObst 1) (EObst 2); OProcess;
+   OMove 1; OSetEnd 10 true (EObst 2); ODelObst 2; OProcess;
+   ONewObst 3; ONewConn 11 (EObst 3) EPoint; OMove 1; ODelConn 10; ODestroy].
+
+Example demo_legal : all_legal true true (init true) demo = true /\ length demo = 14.
+Proof. vm_compute. repeat split. Qed.
+
+Example demo_mid_transaction :
+  let s := run true true true (firstn 8 demo) in
+  queue s = [AMove 1; AConn 10 [(true, EObst 2)]; ARemove 2] /\
+  attached s = [(10, true, 2); (10, false, 1)] /\ heap s = [10; 2; 1] /\ bad s = [].
+Proof. vm_compute. repeat split. Qed.
+
+Example demo_after_process :
+  let s := run true true true (firstn 9 demo) in
+  queue s = [] /\ attached s = [(10, false, 1)] /\ heap s = [10; 1] /\ freed s = [2] /\
+  active s = [1] /\ bad s = [].
+Proof. vm_compute. repeat split. Qed.
+
+Example demo_before_destroy :
+  let s := run true true true (firstn 13 demo) in
+  queue s = [AAdd 3; AConn 11 [(false, EObst 3); (true, EPoint)]; AMove 1] /\ heap s = [11; 3; 1] /\
+  active s = [1] /\ aconns s = [] /\ alive s = true.
+Proof. vm_compute. repeat split. Qed.
+
+Example demo_end :
+  let s := run true true true demo in
+  alive s = false /\ bad s = [] /\ heap s = [] /\ freed s = [1; 3; 11; 10; 2].
+Proof. vm_compute. repeat split. Qed.
+
+(* the same history on the code before the F-k repair dereferences the freed obstacle 2, and on the
+   code before the F-l repair leaks 11 and 3: the theorems really depend on the repairs *)
+Example demo_before_fixes :
+  bad (run false true true demo) = [2] /\ heap (run true false true demo) = [11; 3].
+Proof. vm_compute. repeat split. Qed.
+
+(* immediate mode (no transaction): every op is processed at once *)
+Example demo_immediate :
+  all_legal true true (init false) demo = true /\
+  bad (run true true false demo) = [] /\ heap (run true true false demo) = [] /\
+  alive (run true true false demo) = false.
+Proof. vm_compute. repeat split. Qed.
